@@ -375,3 +375,103 @@ Proof.
   - intros i w R _. apply prem_skip.
   - rewrite !app_length. pose proof (pblocks_length st ws Hws 1). lia.
 Qed.
+
+(* ------------------------------------------------------------------ header, footer, account *)
+Lemma lit_skip_0 st X : find m_pre_row (sty st pre0_0 pre1_0 ++ X) = find m_pre_row X.
+Proof. destruct st; reflexivity. Qed.
+Lemma lit_skip_1 st X : find m_pre_row (sty st pre0_1 pre1_1 ++ X) = find m_pre_row X.
+Proof. destruct st; reflexivity. Qed.
+Lemma lit_skip_2 st X : find m_pre_row (sty st pre0_2 pre1_2 ++ X) = find m_pre_row X.
+Proof. destruct st; reflexivity. Qed.
+Lemma foot_none st : find m_pre_row (sty st pre0_foot pre1_foot) = None.
+Proof. destruct st; vm_compute; reflexivity. Qed.
+
+Lemma acct_not_slash c : is_acct c = true -> (c =? 47) = false.
+Proof. intros H. apply N.eqb_neq. intros ->. discriminate. Qed.
+Lemma span_digit_acct c T' : is_digit c = false -> (c =? 47) = false -> forall u, forallb is_acct u = true ->
+  exists a x r', span is_digit (u ++ c :: T') = (a, x :: r') /\ (x =? 47) = false.
+Proof.
+  intros Hc1 Hc2. induction u as [|y u IH]; intros Hu.
+  - exists [], c, T'. cbn [app span]. rewrite Hc1. split; [reflexivity|exact Hc2].
+  - cbn [forallb] in Hu. apply andb_true_iff in Hu. destruct Hu as [Hy Hu]. cbn [app span].
+    destruct (is_digit y) eqn:E.
+    + destruct (IH Hu) as (a & x & r' & Es & Hx). rewrite Es. exists (y :: a), x, r'. split; [reflexivity|exact Hx].
+    + exists [], y, (u ++ c :: T'). split; [reflexivity|apply acct_not_slash; exact Hy].
+Qed.
+Lemma pre_row_none_acct c T' u : is_digit c = false -> (c =? 47) = false -> forallb is_acct u = true ->
+  m_pre_row (u ++ c :: T') = None.
+Proof.
+  intros Hc1 Hc2 Hu. unfold m_pre_row, date3, run1.
+  destruct (span_digit_acct c T' Hc1 Hc2 u Hu) as (a & x & r' & Es & Hx). rewrite Es.
+  destruct a as [|a0 a]; [reflexivity|]. cbn [obind chr]. rewrite Hx. reflexivity.
+Qed.
+Lemma acct_skip c T' : is_digit c = false -> (c =? 47) = false -> forall u, forallb is_acct u = true ->
+  find m_pre_row (u ++ c :: T') = find m_pre_row (c :: T').
+Proof.
+  intros Hc1 Hc2. induction u as [|y u IH]; intros Hu; [reflexivity|].
+  cbn [app]. rewrite find_cons_none.
+  - apply IH. cbn [forallb] in Hu. apply andb_true_iff in Hu. exact (proj2 Hu).
+  - exact (pre_row_none_acct c T' (y :: u) Hc1 Hc2 Hu).
+Qed.
+
+Definition pre_hd (st : bool) (acct : text) : text :=
+  sty st pre0_0 pre1_0 ++ acct ++ sty st pre0_1 pre1_1 ++ acct ++ sty st pre0_2 pre1_2.
+Lemma hd_skip st acct X : forallb is_acct acct = true ->
+  find m_pre_row (pre_hd st acct ++ X) = find m_pre_row X.
+Proof.
+  intros Ha. unfold pre_hd. rewrite <- !app_assoc. rewrite lit_skip_0.
+  assert (E1 : sty st pre0_1 pre1_1 = 10 :: tl (sty st pre0_1 pre1_1)) by (destruct st; reflexivity).
+  rewrite E1 at 1. cbn [app]. rewrite (acct_skip 10 _ eq_refl eq_refl acct Ha).
+  change (10 :: tl (sty st pre0_1 pre1_1) ++ acct ++ sty st pre0_2 pre1_2 ++ X)
+    with ((10 :: tl (sty st pre0_1 pre1_1)) ++ acct ++ sty st pre0_2 pre1_2 ++ X).
+  rewrite <- E1. rewrite lit_skip_1.
+  destruct st.
+  - change (pre1_2) with (10 :: tl pre1_2). cbn [sty app].
+    rewrite (acct_skip 10 _ eq_refl eq_refl acct Ha).
+    change (10 :: tl pre1_2 ++ X) with (sty true pre0_2 pre1_2 ++ X). apply lit_skip_2.
+  - change (pre0_2) with (73 :: tl pre0_2). cbn [sty app].
+    rewrite (acct_skip 73 _ eq_refl eq_refl acct Ha).
+    change (73 :: tl pre0_2 ++ X) with (sty false pre0_2 pre1_2 ++ X). apply lit_skip_2.
+Qed.
+
+(* Account\s+Number: ... : "Account Name:" comes first in the header *)
+Lemma g_tc_account3 : guarded m_tc_account
+  (glit k_Account ++ [is_space; fun c => is_space c || (c =? 78); fun c => is_space c || (c =? 78) || (c =? 117)]).
+Proof.
+  intros s H. rewrite prefix_sat_app_lit in H. unfold m_tc_account, lit.
+  destruct (strip_prefix k_Account s) as [r|]; [|reflexivity]. cbn [obind].
+  destruct r as [|c1 r]; [reflexivity|]. cbn [prefix_sat sp1] in *. destruct (is_space c1); [|reflexivity]. cbn [andb obind] in *.
+  destruct r as [|c2 r]; [reflexivity|]. cbn [prefix_sat] in H. cbn [skip_spaces].
+  destruct (is_space c2) eqn:E2.
+  - cbn [orb andb] in H. destruct r as [|c3 r]; [reflexivity|]. cbn [prefix_sat] in H. rewrite andb_true_r in H.
+    apply orb_false_iff in H. destruct H as [H _]. apply orb_false_iff in H. destruct H as [H3 H4].
+    cbn [skip_spaces]. rewrite H3. unfold k_Number_c. cbn [strip_prefix]. rewrite N.eqb_sym, H4. reflexivity.
+  - cbn [orb] in H. destruct (c2 =? 78) eqn:E78.
+    + cbn [andb] in H. destruct r as [|c3 r]; [apply N.eqb_eq in E78; subst c2; reflexivity|].
+      cbn [prefix_sat] in H. rewrite andb_true_r in H. apply orb_false_iff in H. destruct H as [_ H5].
+      apply N.eqb_eq in E78. subst c2. unfold k_Number_c. cbn [strip_prefix]. rewrite N.eqb_refl, (N.eqb_sym 117 c3), H5. reflexivity.
+    + unfold k_Number_c. cbn [strip_prefix]. rewrite N.eqb_sym, E78. reflexivity.
+Qed.
+
+Lemma pre_account st acct X : acct <> [] -> forallb is_acct acct = true ->
+  exists rest, get1 m_tc_account (pre_hd st acct ++ X) = Ok (acct, rest).
+Proof.
+  intros Hn Ha. apply get1_of_fst.
+  assert (Hns : forallb nonspace acct = true) by (apply (forallb_imp is_acct); [exact acct_nonspace|exact Ha]).
+  assert (Hok : forall b, Forall seg_ok [SL (sty b pre0_0 pre1_0); SF c_acct acct; SL (sty b pre0_1 pre1_1)]) by (intro; repeat constructor; auto).
+  unfold pre_hd.
+  replace ((sty st pre0_0 pre1_0 ++ acct ++ sty st pre0_1 pre1_1 ++ acct ++ sty st pre0_2 pre1_2) ++ X)
+    with (flat [SL (sty st pre0_0 pre1_0); SF c_acct acct; SL (sty st pre0_1 pre1_1)] ++ (acct ++ sty st pre0_2 pre1_2 ++ X))
+    by (cbn [flat seg_text]; rewrite app_nil_r; rewrite <- !app_assoc; reflexivity).
+  rewrite <- (find_seek m_tc_account _ g_tc_account3 _ _ (Hok st)).
+  destruct st;
+  (match goal with |- context [seek ?g true ?D] => let s' := eval vm_compute in (seek g true D) in change (seek g true D) with s' end;
+   cbn [flat seg_text]; rewrite app_nil_r, <- !app_assoc;
+   erewrite find_hit; cycle 1;
+   [ unfold m_tc_account, k_Account, k_Number_c; cbn [app lit strip_prefix N.eqb Pos.eqb obind];
+     rewrite sp1_sp; cbn [obind]; rewrite skip_spaces_nonspace by reflexivity;
+     cbn [lit strip_prefix N.eqb Pos.eqb obind];
+     rewrite skip_sp_nonspace_fld by auto; rewrite run1_all by (auto; reflexivity);
+     cbn [obind one_sp]; reflexivity
+   | reflexivity ]).
+Qed.
